@@ -19,9 +19,9 @@ def R(len=0, id='v', set=(), reset=(), err=False, lang='', content=''):
     return dict(len=len, id=id if len else '', set=list(set), reset=list(reset), err=err, lang=lang, content=content)
 
 
-def prog(name, nodes, syms, inputs, flagcount=2, templates=None, outputsize=0, cachesize=0, language=''):
+def prog(name, nodes, syms, inputs, flagcount=2, templates=None, outputsize=0, cachesize=0, language='', langsens=False):
     t = templates or {}
-    p = dict(name=name, root='root', flagcount=flagcount, outputsize=outputsize, cachesize=cachesize, language=language,
+    p = dict(name=name, root='root', flagcount=flagcount, outputsize=outputsize, cachesize=cachesize, language=language, langsens=langsens,
              nodes=nodes, templates=t, syms=syms, inputs=inputs)
     json.dump(p, open(os.path.join(OUT, name + '.json'), 'w'), indent=1, sort_keys=True)
 
@@ -52,15 +52,19 @@ prog('nav', {
 # flags: CATCH/CROAK in both modes before and after HALT; external code touching reserved flags, TERMINATE, client flags
 prog('flags', {
     'root': [I('LOAD', 'fa', n=0), I('CATCH', 'on8', n=8, m=1), I('CATCH', 'off9', n=9, m=0), I('HALT'),
-             I('INCMP', 'tamper', '1'), I('INCMP', 'term', '2'), I('INCMP', 'croak', '3'), I('INCMP', '.', '4')],
+             I('INCMP', 'tamper', '1'), I('INCMP', 'term', '2'), I('INCMP', 'croak', '3'), I('INCMP', '.', '4'), I('INCMP', 'rel', '5')],
     'on8': [I('LOAD', 'clr', n=0), I('HALT'), I('INCMP', '_', '*')],
     'off9': [I('LOAD', 'set9', n=0), I('HALT'), I('INCMP', '_', '*')],
-    'tamper': [I('LOAD', 'evil', n=0), I('CATCH', 'on8', n=3, m=1), I('HALT'), I('INCMP', '_', '0'), I('INCMP', 'croak', '1')],
+    'tamper': [I('LOAD', 'evil', n=0), I('CATCH', 'on8', n=3, m=1), I('HALT'), I('INCMP', '_', '0'), I('INCMP', 'croak', '1'), I('INCMP', 'rel2', '2')],
     'term': [I('LOAD', 'kill', n=0), I('MAP', 'kill'), I('HALT'), I('INCMP', '_', '*')],
     'croak': [I('HALT'), I('INCMP', '_', '0'), I('CROAK', n=9, m=1), I('INCMP', '^', '1')],
+    # CATCH with relative targets: up when 9 is set / rewind when 8 is set (the parent's code then runs from its start)
+    'rel': [I('LOAD', 'set9', n=0), I('CATCH', '_', n=9, m=1), I('HALT'), I('INCMP', '_', '*')],
+    'rel2': [I('LOAD', 'fb', n=0), I('CATCH', '^', n=8, m=1), I('CATCH', '.', n=3, m=1), I('HALT'), I('INCMP', '_', '*')],
     '_catch': CATCH,
 }, {
     'fa': [R(1, 'f'), R(1, 'f', set=[8]), R(1, 'f', set=[9])],
+    'fb': [R(1, 'g', set=[8]), R(1, 'g')],
     'clr': [R(1, 'c', reset=[8, 9])],
     'set9': [R(1, 's', set=[9])],
     'evil': [R(1, 'e', set=[0, 1, 2, 3, 4, 5, 8], reset=[4, 9]), R(1, 'e', reset=[0, 1, 2, 3, 4, 5])],
@@ -111,7 +115,7 @@ prog('lang', {
     'pick': [R(content='nor', len=3, id='#', set=[7], lang='nor'), R(content='fr', len=2, id='#', set=[7], lang='fra'),
              R(content='xx', len=2, id='x', set=[7], lang='BAD'), R(2, 'p')],
     'txt': [R(3, 't')],
-}, ['', '0', '1', '2', '3'], templates={'sub': 'sub {{.txt}}'})
+}, ['', '0', '1', '2', '3'], templates={'sub': 'sub {{.txt}}'}, langsens=True)
 # reenter: the entry node (and other nodes) re-entered BY NAME deeper in the stack, then rewound / popped
 prog('reenter', {
     'root': [I('LOAD', 'aa', n=5), I('HALT'), I('INCMP', 'sub', '1'), I('INCMP', '^', '2'), I('INCMP', '_', '0')],
